@@ -170,6 +170,10 @@ def _implied(H, g):
             "prec_min": float(w[pos].min())}
 
 
+class _WrapViolation(Exception):
+    pass
+
+
 def _wrap_problem(out, N, dist):
     """None, or a description of why ``out`` is not 'a CUQIarray with the distribution's geometry' (N=1) /
     'a Samples with one column per draw' (N>1)."""
@@ -253,10 +257,13 @@ def _affine_law(dist, N, path, post=None):
         o, _ = _run_normal_script(dist, N, path, xi)
         p = _wrap_problem(o, N, dist)
         if p:
-            raise HarnessError("wrapping changed between executions: " + p)
+            raise _WrapViolation("wrapping changed between executions: " + p)
         m = _matrix(o, N, dim)
         return (post(m) if post else m).ravel()
-    z0, T, _ = affine_probe(draw, n, lin_check=False)
+    try:
+        z0, T, _ = affine_probe(draw, n, lin_check=False)
+    except _WrapViolation as e:
+        return {"problem": str(e)}
     v = np.array([(-1) ** i * (0.5 + 0.25 * (i % 7)) for i in range(n)])
     return {"offset": z0, "T": T, "n": n, "requests": reqs, "executions": n + 2 + 1, "probe": (v, draw(v))}
 
@@ -1053,7 +1060,7 @@ def _eval_mhn(cell, res):
             out = d.sample(1, rng=rng) if rng is not None else d.sample(1)
             p = _wrap_problem(out, 1, d)
             if p:
-                raise HarnessError(p)
+                raise _WrapViolation(p)      # a verdict about the library (wrong wrapping of the draw), not a harness error
             return _f(out)
         facet = "public"
     for path in PATHS:
@@ -1064,6 +1071,9 @@ def _eval_mhn(cell, res):
         except _SampleRaised as e:
             res.transitions += 1
             agg.add("ModifiedHalfNormal", "sample-raises", facet, where, "the sampler raised %s" % e)
+        except _WrapViolation as e:
+            res.transitions += 1
+            agg.add("ModifiedHalfNormal", "sample-shape", facet, where, str(e))
     agg.emit(res)
     return res
 
@@ -1090,7 +1100,7 @@ def _mhn_path(res, agg, cell, path, where, facet, call, target, mode):
                 obs = ("accept", float(x))
             except _Stop:
                 obs = ("reject", None)
-            except (HarnessError, _SampleRaised):
+            except (HarnessError, _SampleRaised, _WrapViolation):
                 raise
             except Exception as e:       # a crash of the sampler itself is a verdict, not a harness error
                 raise _SampleRaised(repr(e))
